@@ -110,7 +110,10 @@ func hasContents(m chat.Message) bool {
 	return false
 }
 
-// a mixed argument list somewhere below m (the known finding C17.nbt.mixed-args)
+// a mixed argument list somewhere below m (bare values beside components). Since the repair of the former
+// finding C17.nbt.mixed-args these are ordinary components: the NBT form writes the bare values as text
+// components, and every predicate below applies to them unchanged. Only used to name the class of an
+// encoding error, should the old behaviour come back.
 func mixedArgs(m chat.Message) bool {
 	ns, nm := 0, 0
 	for _, a := range m.With {
@@ -131,6 +134,46 @@ func mixedArgs(m chat.Message) bool {
 	}
 	for i := range m.Extra {
 		if mixedArgs(m.Extra[i]) {
+			return true
+		}
+	}
+	return false
+}
+
+// a string longer than 32767 bytes somewhere below m: the NBT form has no image for it (the length prefix of
+// a TagString is an int16), so Message.WriteTo must refuse the component; the JSON form is unaffected
+func oversize(m chat.Message) bool {
+	big := func(ss ...string) bool {
+		for _, x := range ss {
+			if len(x) > 32767 {
+				return true
+			}
+		}
+		return false
+	}
+	if big(m.Text, m.Font, m.Color, m.Insertion, m.Translate) {
+		return true
+	}
+	if m.ClickEvent != nil && big(m.ClickEvent.Action, m.ClickEvent.Value) {
+		return true
+	}
+	if m.HoverEvent != nil && (big(m.HoverEvent.Action) || oversize(m.HoverEvent.Value)) {
+		return true
+	}
+	for _, a := range m.With {
+		switch v := a.(type) {
+		case chat.Message:
+			if oversize(v) {
+				return true
+			}
+		case string:
+			if big(v) {
+				return true
+			}
+		}
+	}
+	for i := range m.Extra {
+		if oversize(m.Extra[i]) {
 			return true
 		}
 	}
@@ -542,7 +585,7 @@ func genMsg(r *hx.Rng, depth int) chat.Message {
 	if r.Intn(3) == 0 {
 		m.Translate = keyPool[r.Intn(len(keyPool))]
 		n := r.Intn(6)
-		kind := r.Intn(4) // 0,1: components; 2: strings; 3: mixed (known finding in the NBT form)
+		kind := r.Intn(4) // 0,1: components; 2: strings; 3: mixed (written as components in the NBT form)
 		if kind == 3 && r.Intn(3) > 0 {
 			kind = r.Intn(3)
 		}
@@ -615,6 +658,37 @@ func expectedKeys(m chat.Message) []string {
 	return k
 }
 
+// argsShape: the NBT list written for a non-empty argument list of strings and components
+func argsShape(with chat.TranslateArgs, l tv) bool {
+	nm := 0
+	for _, a := range with {
+		if _, ok := a.(chat.Message); ok {
+			nm++
+		}
+	}
+	want := byte(8)
+	if nm > 0 {
+		want = 10
+	}
+	if l.id != 9 || l.et != want || len(l.l) != len(with) {
+		return false
+	}
+	for i, a := range with {
+		z, bare := a.(string)
+		e := l.l[i]
+		if e.id != want {
+			return false
+		}
+		if bare && nm == 0 && e.s != z {
+			return false
+		}
+		if bare && nm > 0 && !(len(e.keys) == 1 && e.keys[0] == "text" && e.l[0].id == 8 && e.l[0].s == z) {
+			return false
+		}
+	}
+	return true
+}
+
 func encCase(o *hx.Out, cat string, m chat.Message) {
 	line := "enc " + showMsg(m)
 	b, n, err, pan := nbtWrite(m)
@@ -623,12 +697,18 @@ func encCase(o *hx.Out, cat string, m chat.Message) {
 	nontrivial := m.Translate != "" || len(m.Extra) > 0 || m.HoverEvent != nil
 	if err != nil || pan != "" || jerr != nil || nerr != nil {
 		o.Case(cat, nontrivial, line, "enc err")
+		if oversize(m) && err != nil && nerr != nil && pan == "" && jerr == nil {
+			return // refused, as it must be; what the NEXT encodes write is checked by their own cases
+		}
 		cls := "C17.encode.error"
 		if mixedArgs(m) && pan == "" && jerr == nil {
-			cls = "C17.nbt.mixed-args"
+			cls = "C17.nbt.mixed-args" // repaired defect: the NBT form of a mixed argument list must be written
 		}
 		o.Fail(cls, "m=%s nbt=%v panic=%q json=%v named=%v", showMsg(m), err, pan, jerr, nerr)
 		return
+	}
+	if oversize(m) {
+		o.Fail("C17.encode.oversize", "a string longer than 32767 bytes was written in the NBT form: n=%d", n)
 	}
 	jt, perr := parseJSON(js)
 	if perr != nil {
@@ -644,7 +724,6 @@ func encCase(o *hx.Out, cat string, m chat.Message) {
 	o.Case(cat, nontrivial, line, fmt.Sprintf("enc %s %s %s | nbt %s | json %s", hx.Hex(b), hx.Hex(named), jt.show(),
 		readLine(back, left, rerr, rpan), jline))
 
-	mixed := mixedArgs(m)
 	// P: byte counts
 	if int(n) != len(b) {
 		o.Fail("C17.nbt.count", "m=%s WriteTo n=%d bytes=%d", showMsg(m), n, len(b))
@@ -652,11 +731,16 @@ func encCase(o *hx.Out, cat string, m chat.Message) {
 	// P: the wire image is ONE well-formed network-format value: a compound with the expected keys
 	t, rest, ok := readNet(b)
 	if !ok || rest != 0 || t.id != 10 || !reflect.DeepEqual(append([]string{}, t.keys...), append([]string{}, expectedKeys(m)...)) {
-		cls := "C17.nbt.wire"
-		if mixed {
-			cls = "C17.nbt.mixed-args"
+		o.Fail("C17.nbt.wire", "m=%s wire=%s parsed=%v rest=%d keys=%v want=%v", showMsg(m), hx.Hex(b), ok, rest, t.keys, expectedKeys(m))
+	}
+	// P: the arguments are ONE homogeneous list: strings when every argument is a bare string, otherwise
+	// compounds in which a bare string z is the text-only component {text: z}
+	if ok && t.id == 10 {
+		for i, k := range t.keys {
+			if k == "with" && !argsShape(m.With, t.l[i]) {
+				o.Fail("C17.nbt.args", "m=%s wire=%s with=%s", showMsg(m), hx.Hex(b), t.l[i].show())
+			}
 		}
-		o.Fail(cls, "m=%s wire=%s parsed=%v rest=%d keys=%v want=%v", showMsg(m), hx.Hex(b), ok, rest, t.keys, expectedKeys(m))
 	}
 	// classic format = type, empty name, same payload
 	if len(b) > 0 && !bytes.Equal(named, append([]byte{b[0], 0, 0}, b[1:]...)) {
@@ -664,26 +748,18 @@ func encCase(o *hx.Out, cat string, m chat.Message) {
 	}
 	// P: NBT round trip (packet adapter and nbt.Unmarshal)
 	if rerr != nil || rpan != "" || !sameMsg(back, m) || left != 0 || int(n2) != len(b) || hasContents(back) {
-		cls := "C17.nbt.roundtrip"
-		if mixed {
-			cls = "C17.nbt.mixed-args"
-		}
-		o.Fail(cls, "m=%s wire=%s back=%s err=%v panic=%q left=%d n=%d", showMsg(m), hx.Hex(b), showMsg(back), rerr, rpan, left, n2)
+		o.Fail("C17.nbt.roundtrip", "m=%s wire=%s back=%s err=%v panic=%q left=%d n=%d", showMsg(m), hx.Hex(b), showMsg(back), rerr, rpan, left, n2)
 	}
 	var back2 chat.Message
 	if uerr := nbt.Unmarshal(named, &back2); uerr != nil || !sameMsg(back2, m) {
-		cls := "C17.nbt.roundtrip.named"
-		if mixed {
-			cls = "C17.nbt.mixed-args"
-		}
-		o.Fail(cls, "m=%s named=%s back=%s err=%v", showMsg(m), hx.Hex(named), showMsg(back2), uerr)
+		o.Fail("C17.nbt.roundtrip.named", "m=%s named=%s back=%s err=%v", showMsg(m), hx.Hex(named), showMsg(back2), uerr)
 	}
 	// P: JSON round trip
 	if juerr != nil || !sameMsg(jback, m) || hasContents(jback) {
 		o.Fail("C17.json.roundtrip", "m=%s json=%s back=%s err=%v", showMsg(m), js, showMsg(jback), juerr)
 	}
 	// P: both forms decode to equal values
-	if rerr == nil && juerr == nil && !mixed && !reflect.DeepEqual(norm(back), norm(jback)) {
+	if rerr == nil && juerr == nil && !reflect.DeepEqual(norm(back), norm(jback)) {
 		o.Fail("C17.forms.disagree", "m=%s nbt=%s json=%s", showMsg(m), showMsg(back), showMsg(jback))
 	}
 	// JsonMessage packet adapter
@@ -764,7 +840,7 @@ func typeCase(o *hx.Out, cat string, id int32, sender chat.Message, target *chat
 	}
 	if err != nil {
 		o.Case(cat, target != nil, fmt.Sprintf("type %d %s %s", id, showMsg(sender), ts), "type err")
-		if !(mixedArgs(sender) || (target != nil && mixedArgs(*target))) {
+		if !(oversize(sender) || (target != nil && oversize(*target))) {
 			o.Fail("C17.type.encode.error", "id=%d sender=%s target=%s err=%v", id, showMsg(sender), ts, err)
 		}
 		return
@@ -1125,6 +1201,32 @@ func main() {
 			Insertion: "i", ClickEvent: chat.RunCommand("/c"), HoverEvent: chat.ShowItem("{id:1}"), Translate: "k2",
 			With: chat.TranslateArgs{leaf, chat.Text("§ay")}, Extra: []chat.Message{leaf, {Translate: "kp", With: chat.TranslateArgs{"z"}}}},
 	}
+	// argument lists mixing bare strings and components (the repaired C17.nbt.mixed-args): at the root, nested
+	// in an argument, an extra and a hover value; three elements; the empty string beside the zero component
+	mix := chat.Message{Translate: "k2", With: chat.TranslateArgs{"in", leaf}}
+	single = append(single,
+		chat.Message{Translate: "k3", With: chat.TranslateArgs{"a", leaf, "b"}},
+		chat.Message{Translate: "k3", With: chat.TranslateArgs{leaf, "a", chat.Message{Translate: "k0"}}},
+		chat.Message{Translate: "k2", With: chat.TranslateArgs{mix, "out"}},
+		chat.Message{Translate: "k2", With: chat.TranslateArgs{mix, leaf}},
+		chat.Message{Extra: []chat.Message{mix, leaf}},
+		chat.Message{HoverEvent: chat.ShowText(mix)},
+		chat.Message{Translate: "k2", With: chat.TranslateArgs{"", chat.Message{}}},
+		chat.Message{Text: "t", Translate: "k2", With: chat.TranslateArgs{chat.Message{Translate: "k1", With: chat.TranslateArgs{"s"}}, "§az"}})
+	for _, s := range strPool {
+		single = append(single, chat.Message{Translate: "k2", With: chat.TranslateArgs{s, chat.Text(s)}})
+	}
+	// the int16 length prefix: 32767 bytes is the longest string with an NBT form; one byte more is refused,
+	// wherever the string sits (the encoder has then written part of the component into its scratch buffer),
+	// and the encodes that follow (the rest of this list) are not disturbed by the refusal
+	maxs, over := strings.Repeat("m", 32767), strings.Repeat("o", 32768)
+	single = append(single,
+		chat.Text(maxs), chat.Text(over), leaf,
+		chat.Message{Text: "Steve", Color: "red", Insertion: over}, chat.Message{Text: "hi", Color: "red"},
+		chat.Message{Translate: "k2", With: chat.TranslateArgs{leaf, over}}, leaf,
+		chat.Message{Translate: "k2", With: chat.TranslateArgs{"a", over}}, chat.Message{Translate: "k1", With: chat.TranslateArgs{maxs}},
+		chat.Message{Text: "t", Extra: []chat.Message{leaf, {Text: "e", Font: over}}}, chat.Message{Extra: []chat.Message{leaf}},
+		chat.Message{Text: "t", HoverEvent: chat.ShowText(chat.Message{Text: "h", Translate: over})}, chat.Message{HoverEvent: chat.ShowText(leaf)})
 	for _, s := range strPool {
 		single = append(single, chat.Text(s), chat.Message{Translate: "k1", With: chat.TranslateArgs{s}},
 			chat.Message{Translate: "k1", With: chat.TranslateArgs{chat.Text(s)}}, chat.Message{Insertion: s, Extra: []chat.Message{chat.Text(s)}})
@@ -1168,6 +1270,13 @@ func main() {
 		}
 		typeCase(o, "type", id, s, t)
 	}
+	{
+		big := chat.Message{Text: "Steve", Insertion: strings.Repeat("o", 32768)}
+		typeCase(o, "type.oversize", 7, big, nil)
+		typeCase(o, "type.oversize", 7, leaf, nil)
+		typeCase(o, "type.oversize", 7, leaf, &big)
+		typeCase(o, "type.oversize", 7, leaf, &leaf)
+	}
 	// 4. NBT decoder: accepted shapes, mutated trees, truncations
 	for _, s := range strPool {
 		want := chat.Text(s)
@@ -1191,9 +1300,6 @@ func main() {
 		decnCase(o, "decn.rootkind", append([]byte{byte(id)}, 0, 0, 0, 0, 0, 0, 0, 0, 0), false, nil)
 	}
 	for i, m := range corpus {
-		if mixedArgs(m) {
-			continue
-		}
 		b, _, err, _ := nbtWrite(m)
 		t, _, ok := readNet(b)
 		if err != nil || !ok {
